@@ -18,6 +18,7 @@ VERIF = os.path.abspath(os.path.join(HERE, '..'))
 LEAN = os.path.join(VERIF, 'lean')
 EVID = os.path.join(VERIF, 'evidence')
 REPLAY = os.path.join(EVID, 'replay')
+PROOF_TIMEOUT = int(os.environ.get('VERIF_PROOF_TIMEOUT', '300'))
 ALLOWED_AXIOMS = {'propext', 'Classical.choice', 'Quot.sound'}
 FORBIDDEN = re.compile(r'\bsorry\b|\badmit\b|^\s*axiom\s|native_decide|bv_decide|implemented_by|\bunsafe\s|maxHeartbeats\s+0\b',
                        re.M)
@@ -37,8 +38,19 @@ class Infra(Exception):
 
 
 def sh(cmd, cwd=None, timeout=3600):
-    p = subprocess.run(cmd, cwd=cwd, stdout=subprocess.PIPE, stderr=subprocess.STDOUT, timeout=timeout)
-    return p.returncode, p.stdout.decode('utf-8', 'replace')
+    """run a command in its own process group; on timeout the whole group is killed (lake -> lean children)"""
+    import signal
+    p = subprocess.Popen(cmd, cwd=cwd, stdout=subprocess.PIPE, stderr=subprocess.STDOUT, start_new_session=True)
+    try:
+        out, _ = p.communicate(timeout=timeout)
+    except subprocess.TimeoutExpired:
+        try:
+            os.killpg(p.pid, signal.SIGKILL)
+        except ProcessLookupError:
+            pass
+        p.wait()
+        raise
+    return p.returncode, out.decode('utf-8', 'replace')
 
 
 # ----------------------------------------------------------------------------- Lean phase
@@ -115,7 +127,11 @@ def lean_phase(pid, tier, log):
         res['failures'].append({'stage': 'translate', 'detail': out[-2000:]})
         res['wall_s'] = time.time() - t0
         return res
-    rc, out = sh(['lake', 'build'], cwd=LEAN)
+    # model + driver only: the property files are built one by one below, under a time limit
+    try:
+        rc, out = sh(['lake', 'build', 'walmodel'], cwd=LEAN, timeout=1500)
+    except subprocess.TimeoutExpired:
+        rc, out = 1, 'timeout building the model'
     if rc != 0:
         bad = re.findall(r'^error: (\S+\.lean:\d+:\d+: .*)$', out, re.M)[:10]
         res['ok'] = False
@@ -126,8 +142,23 @@ def lean_phase(pid, tier, log):
     if not os.path.exists(props):
         res['wall_s'] = time.time() - t0
         return res
+    # (re)build the property's module and what it imports; a proof that no longer terminates counts as broken
+    try:
+        rc, out = sh(['lake', 'build', f'Wal.Props.{pid}'], cwd=LEAN, timeout=PROOF_TIMEOUT)
+    except subprocess.TimeoutExpired:
+        rc, out = 1, f'timeout ({PROOF_TIMEOUT}s) building Wal.Props.{pid}'
+    if rc != 0:
+        bad = re.findall(r'^error: (\S+\.lean:\d+:\d+: .*)$', out, re.M)[:10]
+        res['ok'] = False
+        res['failures'].append({'stage': 'build-props', 'detail': bad or out[-2000:]})
+        res['obligations'] = len(theorems_of(props))
+        res['wall_s'] = time.time() - t0
+        return res
     # re-elaborate the property's own file on every run
-    rc, out = sh(['lake', 'env', 'lean', props], cwd=LEAN)
+    try:
+        rc, out = sh(['lake', 'env', 'lean', props], cwd=LEAN, timeout=PROOF_TIMEOUT)
+    except subprocess.TimeoutExpired:
+        rc, out = 1, f'timeout ({PROOF_TIMEOUT}s) elaborating {props}'
     if rc != 0 or re.search(r'^\S+: error', out, re.M) or 'declaration uses `sorry`' in out:
         res['ok'] = False
         res['failures'].append({'stage': 'elaborate', 'file': props, 'detail': out[-3000:]})
@@ -252,6 +283,7 @@ def _init_worker(check):
     global _CHECK
     _CHECK = check
     from . import impl
+    impl._tmpdir = None        # a directory inherited from the parent process must not be shared between workers
     impl.workdir()
 
 
